@@ -74,6 +74,37 @@ static void vp_body(struct vp_in* pin, u32 tag, size_t len, long dmin, long dmax
 	}
 	VP_WITNESS();
 }
+#elif defined(T_DERT)
+/* typed encoders "Поддерживается логика derEnc(), в частности, буферы der и val могут пересекаться":
+ * ENC_UINT derTUINTEnc(der, tag, val, len) (len > 0 octets), ENC_BIT derTBITEnc(der, tag, val, bits).
+ * val fixed at BASE, der = val + d for d in [dmin, dmax]; reference: the same function on disjoint buffers */
+#ifdef ENC_BIT
+#define ENC(der, tag, val, len) derTBITEnc(der, tag, val, bits)
+#define ENAME "derTBITEnc"
+#else
+#define ENC(der, tag, val, len) derTUINTEnc(der, tag, val, len)
+#define ENAME "derTUINTEnc"
+#endif
+static void vp_body(struct vp_in* pin, u32 tag, size_t len, size_t bits, long dmin, long dmax)
+{
+	size_t c1, c2; long d;
+	VP_ASSUME(len <= MAXN && dmin <= dmax && BASE + dmin >= 0 && (bits + 7) / 8 == len);
+#ifndef ENC_BIT
+	VP_ASSUME(len > 0);
+#endif
+	C11_IN(BASE, len); C11_IN(BASE + dmax, len + 10);
+	VP_ASSUME(8 + 2 * MAXN + 32 <= RSZ);
+	for (d = dmin; d <= dmax; ++d)
+	{
+		C11_LOAD();
+		c11_cp(R + 8 + MAXN + 24, A + BASE, len);
+		c1 = ENC(A + BASE + d, tag, A + BASE, len);
+		c2 = ENC(R + 8, tag, R + 8 + MAXN + 24, len);
+		VP_ASSERT(c1 == c2, ENAME ": length with overlapping der/val == length with disjoint buffers");
+		VP_ASSERT(c1 == SIZE_MAX || (c1 <= len + 10 && vp_eq(A + BASE + d, R + 8, c1)), ENAME ": code with overlapping der/val == code with disjoint buffers");
+	}
+	VP_WITNESS();
+}
 #elif defined(T_KEYX)
 /* key fixed at BASE, key_ = key + d for d in [dmin, dmax] (KEYX2: multiples of 4 only, u32 key_[8]) */
 static void vp_body(struct vp_in* pin, size_t len, long dmin, long dmax)
